@@ -1,8 +1,15 @@
 #!/usr/bin/env python3
-"""Regenerates /verif/MANIFEST.json from tools/manifest_checks.json (texts per check)."""
+"""Regenerates /verif/MANIFEST.json from tools/manifest_base.json + harness/*/area.json."""
 import json, os
 R = os.path.dirname(os.path.dirname(os.path.abspath(__file__)))
-src = json.load(open(os.path.join(R, "tools/manifest_checks.json")))
+src = json.load(open(os.path.join(R, "tools/manifest_base.json")))
+src["checks"] = {}
+for a in sorted(os.listdir(os.path.join(R, "harness"))):
+    fp = os.path.join(R, "harness", a, "area.json")
+    if os.path.exists(fp):
+        for pid, c in json.load(open(fp)).get("checks", {}).items():
+            m = dict(c["manifest"]); m["area"] = a
+            src["checks"][pid] = m
 props = [json.loads(l)["id"] for l in open(os.path.join(R, "properties.jsonl")) if l.strip()]
 checks = []
 for pid in props:
